@@ -1,6 +1,6 @@
 """C08 — coins leave an address only with that address's authority.
 spec/BankerAuth.tla is the statement; spec/Banker.tla model-checks the banker capability mechanics
-against it (M) and shows with four mutant switches that the invariants bite; harness/cmd/banker runs
+against it (M) and shows with five mutant switches that the invariants bite; harness/cmd/banker runs
 attack programs, negative controls and benign traffic on the REAL gno.land application and records,
 per transaction, every tracked balance before/after, the signer's envelope and the honest realm's own
 authority counters; spec/BankerTrace.tla (V) accepts a recorded transaction only if it satisfies the
@@ -8,8 +8,8 @@ statement."""
 import json, os, threading, concurrent.futures as cf, vlib, tracelib
 LEVEL = "exploration"
 _lock = threading.Lock()
-TRACKED = ["u1", "u2", "att", "vault", "vdep", "mal", "mdep", "coll"]
-MUTANTS = {"Banker_mFrom.cfg": ("InvDecrease",), "Banker_mCur.cfg": ("InvDecrease", "InvCapsNeedGrant"), "Banker_mOrigin.cfg": ("InvDecrease",), "Banker_mDenom.cfg": ("InvDenom",)}
+TRACKED = ["u1", "u2", "att", "vault", "vdep", "mal", "mdep", "rtr", "rdep", "coll"]
+MUTANTS = {"Banker_mFrom.cfg": ("InvDecrease",), "Banker_mCur.cfg": ("InvDecrease", "InvCapsNeedGrant"), "Banker_mOrigin.cfg": ("InvDecrease", "InvOriginNet"), "Banker_mLast.cfg": ("InvDecrease", "InvOriginNet"), "Banker_mDenom.cfg": ("InvDenom",)}
 
 
 def lock_scratch(ctx):
@@ -45,7 +45,7 @@ def explain(line):
     for a in dec:
         d = pre[a] - post[a]
         if a == line["signer"]:
-            locked = max(0, post["vdep"] - pre["vdep"]) + max(0, post["mdep"] - pre["mdep"])
+            locked = max(0, post["vdep"] - pre["vdep"]) + max(0, post["mdep"] - pre["mdep"]) + max(0, post["rdep"] - pre["rdep"])
             if not line["run"] and (d > line["fee"] + line["sends"] + locked or locked > line["maxdep"]):
                 bad.append(a + "-beyond-signed-envelope")
         elif a == "vault":
@@ -92,7 +92,7 @@ def run(ctx):
         return
     quick = ctx.tier == "quick"
     # ---- (M)
-    with cf.ThreadPoolExecutor(max_workers=5) as ex:
+    with cf.ThreadPoolExecutor(max_workers=6) as ex:
         fm = ex.submit(vlib.run_tlc, ctx, "Banker", "Banker_q.cfg" if quick else "Banker_t.cfg", timeout=2400, workers=4 if quick else None)
         fmut = {c: ex.submit(vlib.run_tlc, ctx, "Banker", c, timeout=600, workers=1) for c in MUTANTS}
         rm = fm.result()
@@ -133,6 +133,7 @@ def run(ctx):
         "deposit_refund_on_release": sum(1 for x in txs if x["ok"] and x["post"]["vdep"] < x["pre"]["vdep"]),
         "signer_pays_send_or_deposit": sum(1 for x in txs if x["ok"] and x["pre"][x["signer"]] - x["post"][x["signer"]] > x["fee"]),
         "origin_send_forwarded": sum(1 for x in txs if x["ok"] and x["origin"] > 0),
+        "origin_send_instalments_within_envelope": sum(1 for x in txs if x["ok"] and x["label"] in ("inst-2x-half-exact", "router-2x-half-exact")),
         "realm_denom_mint_burn": sum(1 for x in txs if x["ok"] and x["issues"] > 0),
     }
     ctx.cov.update({"evaluations": len(txs), "distinct_nontrivial": len(attacks),
@@ -149,6 +150,10 @@ def run(ctx):
         return      # violations were reported: the coverage floors below describe a healthy run only
     if missing:
         raise vlib.Inconclusive("VACUOUS", "no recorded transaction exercised: %s" % missing)
+    inst = sum(1 for x in reached if x["cls"] == "attack" and ("inst-" in x["label"] or x["label"].startswith("router-")))
+    ctx.cov["origin_send_instalment_attacks"] = inst
+    if inst < 15:
+        raise vlib.Inconclusive("VACUOUS", "only %d origin-send instalment attacks reached the VM" % inst)
     if len(attacks) < 40 or blocked < 40:
         raise vlib.Inconclusive("VACUOUS", "only %d attack programs reached the VM (%d blocked)" % (len(attacks), blocked))
     if ctx.cov["controls_ok"] < 2:
